@@ -1,6 +1,7 @@
 //! Correspondence harness: runs the litep2p implementation on generated / stored cases and
 //! prints one canonical trace per case in the "list of N" wire format of coq/common/Wire.v.
 mod c05;
+mod c07;
 mod c15;
 mod c02;
 mod c03;
@@ -26,6 +27,7 @@ fn main() {
     util::silence_panics();
     match argv[1].as_str() {
         "c05" => c05::main(&args),
+        "c07" => c07::main(&args),
         "c15" => c15::main(&args),
         "c03" => c03::main(&args),
         "c04" => c04::main(&args),
